@@ -16,6 +16,7 @@ structure Ahead (vl ve : View) : Prop where
   fed : feed (.ok vl.core) vl.runes = .ok ve.core
   done : ve.runes = []
   exprs : ve.exprs = vl.exprs
+  fin : ve.fin = vl.fin
 
 theorem feed_tokens_append (c cf : LexCore) (rs : List Char) (h : feed (.ok c) rs = .ok cf) :
     ∃ new, cf.tokens = c.tokens ++ new := by
@@ -50,11 +51,11 @@ theorem headIf_append (n : Nat) (c cf : LexCore) (new : List Token) (t : Token)
   · cases h
 
 /-- the two ways of waiting for `n+1` tokens agree -/
-theorem peekWait_ahead (n : Nat) (ex : List Sexp) (rs : List Char) (c cf : LexCore)
+theorem peekWait_ahead (b : Bool) (n : Nat) (ex : List Sexp) (fin : Bool) (rs : List Char) (c cf : LexCore)
     (h : feed (.ok c) rs = .ok cf) :
-    (∃ t c1 rs1, peekWaitA n ex rs c = .tok t ⟨c1, rs1, ex⟩ ∧ peekWaitA n ex [] cf = .tok t ⟨cf, [], ex⟩ ∧
-        feed (.ok c1) rs1 = .ok cf ∧ n < c1.tokens.length) ∨
-    (peekWaitA n ex rs c = .stop .more ⟨cf, [], ex⟩ ∧ peekWaitA n ex [] cf = .stop .more ⟨cf, [], ex⟩) := by
+    (∃ t c1 rs1, peekWaitA b n ex fin rs c = .tok t ⟨c1, rs1, ex, fin⟩ ∧ peekWaitA b n ex fin [] cf = .tok t ⟨cf, [], ex, fin⟩ ∧
+        feed (.ok c1) rs1 = .ok cf ∧ (b = false → n < c1.tokens.length)) ∨
+    (peekWaitA b n ex fin rs c = .stop .more ⟨cf, [], ex, fin⟩ ∧ peekWaitA b n ex fin [] cf = .stop .more ⟨cf, [], ex, fin⟩) := by
   induction rs generalizing c with
   | nil =>
     have hc : c = cf := by simpa [feed_nil] using h
@@ -62,18 +63,24 @@ theorem peekWait_ahead (n : Nat) (ex : List Sexp) (rs : List Char) (c cf : LexCo
     cases hh : headIf n c with
     | some t =>
       left
-      refine ⟨t, c, [], by simp [peekWaitA, hh], by simp [peekWaitA, hh], rfl, ?_⟩
+      refine ⟨t, c, [], by simp [peekWaitA, hh], by simp [peekWaitA, hh], rfl, fun _ => ?_⟩
       unfold headIf at hh; split at hh
       · assumption
       · cases hh
-    | none => right; simp [peekWaitA, hh]
+    | none =>
+      cases hbf : (b && fin) with
+      | true =>
+        left
+        exact ⟨Token.endTk, c, [], by simp [peekWaitA, hh, hbf], by simp [peekWaitA, hh, hbf], rfl,
+          fun hb => by simp [hb] at hbf⟩
+      | false => right; simp [peekWaitA, hh, hbf]
   | cons r rs ih =>
     cases hh : headIf n c with
     | some t =>
       left
       obtain ⟨new, hnew⟩ := feed_tokens_append c cf (r :: rs) h
       have hcf := headIf_append n c cf new t hnew hh
-      refine ⟨t, c, r :: rs, by simp [peekWaitA, hh], by simp [peekWaitA, hcf], h, ?_⟩
+      refine ⟨t, c, r :: rs, by simp [peekWaitA, hh], by simp [peekWaitA, hcf], h, fun _ => ?_⟩
       unfold headIf at hh; split at hh
       · assumption
       · cases hh
@@ -82,12 +89,12 @@ theorem peekWait_ahead (n : Nat) (ex : List Sexp) (rs : List Char) (c cf : LexCo
       have := ih c' hf
       simpa [peekWaitA, hh, hs] using this
 
-theorem topGet_ahead (ex : List Sexp) (rs : List Char) (c cf : LexCore)
+theorem topGet_ahead (ex : List Sexp) (fin : Bool) (rs : List Char) (c cf : LexCore)
     (h : feed (.ok c) rs = .ok cf) :
-    (∃ t c1 rs1, topGetA ex rs c = .tok t ⟨c1, rs1, ex⟩ ∧
-        topGetA ex [] cf = .tok t ⟨{ cf with tokens := cf.tokens.tail }, [], ex⟩ ∧
+    (∃ t c1 rs1, topGetA ex fin rs c = .tok t ⟨c1, rs1, ex, fin⟩ ∧
+        topGetA ex fin [] cf = .tok t ⟨{ cf with tokens := cf.tokens.tail }, [], ex, fin⟩ ∧
         feed (.ok c1) rs1 = .ok { cf with tokens := cf.tokens.tail }) ∨
-    (∃ st, topGetA ex rs c = .finished st ⟨cf, [], ex⟩ ∧ topGetA ex [] cf = .finished st ⟨cf, [], ex⟩) := by
+    (∃ st, topGetA ex fin rs c = .finished st ⟨cf, [], ex, fin⟩ ∧ topGetA ex fin [] cf = .finished st ⟨cf, [], ex, fin⟩) := by
   induction rs generalizing c with
   | nil =>
     have hc : c = cf := by simpa [feed_nil] using h
@@ -129,58 +136,61 @@ theorem runA_ahead {α : Type} (p : Prog α) (vl ve : View) (hR : Ahead vl ve) :
   | pure a => exact ⟨rfl, hR.exprs.symm⟩
   | fail => exact ⟨rfl, hR.exprs.symm⟩
   | waitPeek n k ih =>
-    obtain ⟨cl, rl, exl⟩ := vl
-    obtain ⟨ce, re, exe⟩ := ve
-    obtain ⟨hfed, hdone, hex⟩ := hR
-    simp only at hfed hdone hex
-    subst hdone
-    have hex' : exl = exe := hex.symm
-    subst hex'
-    clear hex
+    obtain ⟨cl, rl, exl, fl⟩ := vl
+    obtain ⟨ce, re, exe, fe⟩ := ve
+    obtain ⟨hfed, hdone, hex, hfin⟩ := hR
+    simp only at hfed hdone hex hfin
+    subst hdone hex hfin
     simp only [runA]
-    rcases peekWait_ahead n exl rl cl ce hfed with ⟨t, c1, rs1, h1, h2, h3, _⟩ | ⟨h1, h2⟩
+    rcases peekWait_ahead false n exe fe rl cl ce hfed with ⟨t, c1, rs1, h1, h2, h3, _⟩ | ⟨h1, h2⟩
     · rw [h1, h2]
-      exact ih t ⟨c1, rs1, exl⟩ ⟨ce, [], exl⟩ ⟨h3, rfl, rfl⟩
+      exact ih t ⟨c1, rs1, exe, fe⟩ ⟨ce, [], exe, fe⟩ ⟨h3, rfl, rfl, rfl⟩
+    · rw [h1, h2]
+      exact ⟨rfl, rfl⟩
+  | signPeek k ih =>
+    obtain ⟨cl, rl, exl, fl⟩ := vl
+    obtain ⟨ce, re, exe, fe⟩ := ve
+    obtain ⟨hfed, hdone, hex, hfin⟩ := hR
+    simp only at hfed hdone hex hfin
+    subst hdone hex hfin
+    simp only [runA]
+    rcases peekWait_ahead true 0 exe fe rl cl ce hfed with ⟨t, c1, rs1, h1, h2, h3, _⟩ | ⟨h1, h2⟩
+    · rw [h1, h2]
+      exact ih t ⟨c1, rs1, exe, fe⟩ ⟨ce, [], exe, fe⟩ ⟨h3, rfl, rfl, rfl⟩
     · rw [h1, h2]
       exact ⟨rfl, rfl⟩
   | peekAt n k ih =>
-    obtain ⟨cl, rl, exl⟩ := vl
-    obtain ⟨ce, re, exe⟩ := ve
-    obtain ⟨hfed, hdone, hex⟩ := hR
-    simp only at hfed hdone hex
-    subst hdone
-    have hex' : exl = exe := hex.symm
-    subst hex'
-    clear hex
+    obtain ⟨cl, rl, exl, fl⟩ := vl
+    obtain ⟨ce, re, exe, fe⟩ := ve
+    obtain ⟨hfed, hdone, hex, hfin⟩ := hR
+    simp only at hfed hdone hex hfin
+    subst hdone hex hfin
     simp only [runA]
-    rcases peekWait_ahead n exl rl cl ce hfed with ⟨t, c1, rs1, h1, h2, h3, hlen⟩ | ⟨h1, h2⟩
+    rcases peekWait_ahead false n exe fe rl cl ce hfed with ⟨t, c1, rs1, h1, h2, h3, hlen⟩ | ⟨h1, h2⟩
     · rw [h1, h2]
       obtain ⟨new, hnew⟩ := feed_tokens_append c1 ce rs1 h3
       have hq : ce.tokens[n]? = c1.tokens[n]? := by
-        rw [hnew, List.getElem?_append_left hlen]
+        rw [hnew, List.getElem?_append_left (hlen rfl)]
       simp only [hq]
       cases hc : c1.tokens[n]? with
-      | some t' => exact ih t' ⟨c1, rs1, exl⟩ ⟨ce, [], exl⟩ ⟨h3, rfl, rfl⟩
+      | some t' => exact ih t' ⟨c1, rs1, exe, fe⟩ ⟨ce, [], exe, fe⟩ ⟨h3, rfl, rfl, rfl⟩
       | none => exact ⟨rfl, rfl⟩
     · rw [h1, h2]
       exact ⟨rfl, rfl⟩
   | getTok k ih =>
-    obtain ⟨cl, rl, exl⟩ := vl
-    obtain ⟨ce, re, exe⟩ := ve
-    obtain ⟨hfed, hdone, hex⟩ := hR
-    simp only at hfed hdone hex
-    subst hdone
-    have hex' : exl = exe := hex.symm
-    subst hex'
-    clear hex
+    obtain ⟨cl, rl, exl, fl⟩ := vl
+    obtain ⟨ce, re, exe, fe⟩ := ve
+    obtain ⟨hfed, hdone, hex, hfin⟩ := hR
+    simp only at hfed hdone hex hfin
+    subst hdone hex hfin
     simp only [runA]
-    rcases peekWait_ahead 0 exl rl cl ce hfed with ⟨t, c1, rs1, h1, h2, h3, hlen⟩ | ⟨h1, h2⟩
+    rcases peekWait_ahead false 0 exe fe rl cl ce hfed with ⟨t, c1, rs1, h1, h2, h3, hlen⟩ | ⟨h1, h2⟩
     · rw [h1, h2]
-      refine ih t _ _ ⟨?_, rfl, rfl⟩
+      refine ih t _ _ ⟨?_, rfl, rfl, rfl⟩
       simp only
       -- c1 = pre [t0] (c1 without its head)
       cases htk : c1.tokens with
-      | nil => rw [htk] at hlen; simp at hlen
+      | nil => have := hlen rfl; rw [htk] at this; simp at this
       | cons t0 ts =>
         have hc : c1 = pre [t0] { c1 with tokens := ts } := by simp [pre, htk.symm]
         have hp := feed_pre [t0] (.ok { c1 with tokens := ts }) rs1
@@ -199,31 +209,28 @@ theorem runA_ahead {α : Type} (p : Prog α) (vl ve : View) (hR : Ahead vl ve) :
     · rw [h1, h2]
       exact ⟨rfl, rfl⟩
   | topGet k ih =>
-    obtain ⟨cl, rl, exl⟩ := vl
-    obtain ⟨ce, re, exe⟩ := ve
-    obtain ⟨hfed, hdone, hex⟩ := hR
-    simp only at hfed hdone hex
-    subst hdone
-    have hex' : exl = exe := hex.symm
-    subst hex'
-    clear hex
+    obtain ⟨cl, rl, exl, fl⟩ := vl
+    obtain ⟨ce, re, exe, fe⟩ := ve
+    obtain ⟨hfed, hdone, hex, hfin⟩ := hR
+    simp only at hfed hdone hex hfin
+    subst hdone hex hfin
     simp only [runA]
-    rcases topGet_ahead exl rl cl ce hfed with ⟨t, c1, rs1, h1, h2, h3⟩ | ⟨st, h1, h2⟩
+    rcases topGet_ahead exe fe rl cl ce hfed with ⟨t, c1, rs1, h1, h2, h3⟩ | ⟨st, h1, h2⟩
     · rw [h1, h2]
-      exact ih (some t) ⟨c1, rs1, exl⟩ _ ⟨h3, rfl, rfl⟩
+      exact ih (some t) ⟨c1, rs1, exe, fe⟩ _ ⟨h3, rfl, rfl, rfl⟩
     · rw [h1, h2]
       cases st with
-      | done => exact ih none ⟨ce, [], exl⟩ ⟨ce, [], exl⟩ ⟨rfl, rfl, rfl⟩
+      | done => exact ih none ⟨ce, [], exe, fe⟩ ⟨ce, [], exe, fe⟩ ⟨rfl, rfl, rfl, rfl⟩
       | more => exact ⟨rfl, rfl⟩
       | err => exact ⟨rfl, rfl⟩
   | pushTok t k ih =>
     simp only [runA]
-    refine ih _ _ ⟨?_, hR.done, hR.exprs⟩
+    refine ih _ _ ⟨?_, hR.done, hR.exprs, hR.fin⟩
     have hp := feed_pre [t] (.ok vl.core) vl.runes
     rw [hR.fed] at hp
     simpa [Outcome.pre, pre] using hp
   | pushExpr e k ih =>
     simp only [runA]
-    exact ih _ _ ⟨hR.fed, hR.done, by simp [hR.exprs]⟩
+    exact ih _ _ ⟨hR.fed, hR.done, by simp [hR.exprs], hR.fin⟩
 
 end ZygoVerif.Parser
